@@ -72,8 +72,9 @@ claims.update({
    text="Two parts. Proof: the merge table of LocationList.Push, the only place where Repair merges anything, is under contract for every leaf pair (set and order of residues preserved, two ranges merged exactly when they abut and either force is set or a 3'-partial end meets a 5'-partial start, outer partial markers kept). Bounded (not proved): Repair itself is run on every feature table within a stated bound (all tables of 1-2 features and, quick: 60000 sampled / thorough: all 4 million, tables of 3 features over 53 locations x 3 classes; plus 8100 cut/concat/repair round trips) and checked for: never panics, argument unchanged, per-class coverage preserved, idempotent, unchanged when nothing abuts (exact antecedent for forward ranges, conservative one otherwise), classes kept apart, restoration after 1-2 cuts. Three defect classes found on the unchanged tree are recorded as known findings.",
    note=TB+" Repair's own body (map iteration order, fmt-built keys, unbounded linked list) is outside the verified subset: everything named gts.Repair/bounded:* is an enumeration result within the bound, not a proof. Locations.Less/LocationLess and sort.Sort are exercised, not specified. Tables of 4+ features, coordinates other than {0,3,6,9}, Ambiguous locations and nested composites are outside the bound.", design='4/C12'),
  'C15': dict(
-   text="Partial: the library steps the multi-site commands are built from are proved for all inputs - Minimize (sorted, pairwise separated, covers exactly the union), InvertLinear/invertSegments (exact complement, increasing), BySegment order, Segment Head/Tail/Len, and the sequence-level Delete, Erase, Insert, Embed, Rotate and Slice contracts (exact residues, feature count, frames). A change to any of these steps that alters what a command does is caught here.",
-   note=TB+" NOT decided: the per-record loops inside cmd/gts/{delete,insert,infix,split,rotate,extract}.go themselves - the right-to-left order of application, de-duplication of sites (containsRegion, the unique map in split), the split arithmetic for circular records and the 'region shorter than the record' filter of extract are not under contract (the command functions mix flag parsing, I/O and closures over function variables and are outside the verified subset). The claim is therefore about the steps, not about their composition.", design='4/C15'),
+   category='other',
+   text="Two parts. Proof: the library steps the multi-site commands are built from are proved for all inputs - Minimize (sorted, pairwise separated, covers exactly the union), InvertLinear/invertSegments (exact complement, increasing), BySegment order, Segment Head/Tail/Len, and the sequence-level Delete, Erase, Insert, Embed, Rotate and Slice contracts (exact residues, feature count, frames). Bounded (not proved): the per-record loops of delete, delete -e, insert, insert -e, infix, split, rotate, extract and extract -v are run through the gts binary built from the current tree on every site configuration within a stated bound (a 24-residue record, linear and circular, sites from 21 forward ranges, 6 complement ranges and 3 points; all single sites plus sampled (quick) or all (thorough) ordered pairs and sampled triples, i.e. unsorted, nested, overlapping, duplicated and abutting sites) and the residues written are compared with what the property prescribes, computed by plain string slicing. One defect was found and repaired (split of a circular record with several sites at one position wrote an empty record).",
+   note=TB+" The composition of the steps inside cmd/gts/*.go (order of application, de-duplication, split arithmetic, extract filter) is NOT under contract: the command functions mix flag parsing, I/O and calls through function variables chosen at run time. Everything named main.commands/bounded:* is an enumeration result within the bound, not a proof. Only residues are compared, not the feature tables of the outputs (those rest on the step contracts and on C02-C05/C10); GenBank output format, locators other than a feature selector, modifiers, joined sites and records longer than 24 residues are outside the bound. For split, either end of a complement-strand site is accepted as its cut position (the statement does not fix it and the code uses both).", design='4/C15'),
 })
 not_app = {
  'C01': "string/grammar round trip through fmt, go-wrap and go-pars closures and global registries: no contract within reach expresses parse(print(x)) = x (DESIGN.md section 7)",
@@ -92,7 +93,7 @@ for pid in ids:
           "engine": "gvc",
           "level_claimed": {"category": c.get('category', 'proof'), "text": c['text'], "design_ref": c['design']},
           "level_note": c['note'],
-          "technique": ("def-use reads-frame analysis over the typed AST plus contract-based deductive verification of ioDelegate.Close/Commit (z3/cvc5)" if pid == 'C14' else "contract-based deductive verification of LocationList.Push (z3/cvc5) plus a bounded exhaustive enumeration of the real Repair (labelled bounded, not proof)" if pid == 'C12' else "contract-based deductive verification: weakest-precondition VCs generated from /repo's typed AST against //@ contracts, discharged by z3/cvc5"),
+          "technique": ("def-use reads-frame analysis over the typed AST plus contract-based deductive verification of ioDelegate.Close/Commit (z3/cvc5)" if pid == 'C14' else "contract-based deductive verification of LocationList.Push (z3/cvc5) plus a bounded exhaustive enumeration of the real Repair (labelled bounded, not proof)" if pid == 'C12' else "contract-based deductive verification of the library steps (z3/cvc5) plus a bounded enumeration of site configurations through the built gts binary (labelled bounded, not proof)" if pid == 'C15' else "contract-based deductive verification: weakest-precondition VCs generated from /repo's typed AST against //@ contracts, discharged by z3/cvc5"),
         })
 na = []
 for pid in ids:
